@@ -8,7 +8,8 @@ from harness.enc import IdMap, untag, proj_table
 from pyg_base import dictable, cmp, first, last
 
 AGG = {'list': None, 'len': len, 'first': first, 'last': last}
-SIZES = (17, 65, 101, 130, 260, 1030)
+SIZES = (20, 68, 104, 130, 260, 1030)      # n = the first m * k + 1 >= size
+THRESHOLDS = (16, 64, 100, 128, 256, 1024)  # 'past:T' = row T + 2: the odd row just beyond the first T rows
 VIAS = ('listby', 'groupby', 'pivot', 'wide')
 
 
@@ -25,7 +26,9 @@ def describe(d, size, mode, posc):
     m = len(d['pat']['rows'])
     k = max(1, -(-(size - len(d['odd'])) // m))
     n = m * k + len(d['odd'])
-    pos = 0 if not d['odd'] else {'early': 2 if n > 1 else 1, 'middle': (n + 1) // 2, 'late': n}[posc]
+    if not d['odd']: pos = 0
+    elif posc.startswith('past:'): pos = min(n, int(posc[5:]) + 2)
+    else: pos = {'early': 2 if n > 1 else 1, 'middle': (n + 1) // 2, 'late': n - 2 if n > 2 else n, 'last': n}[posc]
     return {'pat': d['pat'], 'k': k, 'mode': mode, 'odd': d['odd'], 'pos': pos, 'ids': ['p', 'q']}
 
 
